@@ -168,6 +168,12 @@ def authenticator(sock):
     return sock, "cred-A:" + peer_key(sock.getpeername())       # credentials of this client and nobody else
 
 
+def rewrapping_authenticator(sock):
+    """like `authenticator`, but hands back a NEW socket object for the connection, as SSL wrapping does"""
+    sock2, cred = authenticator(sock)
+    return socket.socket(fileno=sock2.detach()), cred
+
+
 def before_closed_hook(root):
     """a `before_closed` entry for the server's protocol_config (an audit trail, say): does not touch the peer itself"""
 
@@ -440,7 +446,7 @@ class InProcBackend(object):
             self.log_handler = GateHandler()
             kw["logger"] = gated_logger(self.log_handler)
         if auth:
-            kw["authenticator"] = authenticator
+            kw["authenticator"] = rewrapping_authenticator if "wrap" in opts else authenticator
         if kind == "pool":
             kw["nbThreads"] = nb
         install_frame_counter()
@@ -468,6 +474,11 @@ class InProcBackend(object):
         self.srv.listener = FaultyListener(self.srv.listener)
         self.nfaults = 0
         self.thread = self.srv._start_in_thread()
+        self.saved_fd0 = None
+        if "fd0" in opts:
+            # descriptor 0 of this process is free (a daemon that closed its standard input): the first client's socket gets it
+            self.saved_fd0 = os.dup(0)
+            os.close(0)
         self.close_threads = []
         self.close_results = []      # one list per close() call: empty while it has not returned
 
@@ -557,6 +568,12 @@ class InProcBackend(object):
         for t in self.close_threads:
             t.join(2)
         self.thread.join(2)
+        if self.saved_fd0 is not None:
+            try:
+                os.dup2(self.saved_fd0, 0)
+            finally:
+                os.close(self.saved_fd0)
+                self.saved_fd0 = None
         if self.kind == "pool":
             for fd in list(getattr(self.srv, "fd_to_conn", {})):
                 try:
@@ -710,7 +727,7 @@ def forking_child_main(argv):
     install_frame_counter(frame_sink)
     kw = dict(auto_register=False, logger=quiet_logger())
     if auth == "T":
-        kw["authenticator"] = authenticator
+        kw["authenticator"] = rewrapping_authenticator if "wrap" in opts else authenticator
     if "bc" in opts:
         kw["protocol_config"] = {"before_closed": before_closed_hook}
     out = sys.stdout
@@ -1181,7 +1198,8 @@ ITEM_BYTES = {
 # ------------------------------------------------------------------------------------------ session
 class Session(object):
     def __init__(self, kind, transport, auth, nb, call_timeout=CALL_TIMEOUT, opts=()):
-        """opts: "occ" = the service's on_connect asks the peer for its root (what ClassicService does) - a client connecting with
+        """opts: "wrap" = the authenticator hands back a new socket object (as SSL wrapping does); "fd0" = descriptor 0 of the
+        (in-process) server is free, so its first client's socket gets it; "occ" = the service's on_connect asks the peer for its root (what ClassicService does) - a client connecting with
         `e` answers that with an exception reply naming SystemExit / KeyboardInterrupt / ...; "hifd" = the server process holds every descriptor number up to ~1100 before the first client comes (its
         clients' sockets get numbers select() cannot handle); "rh" = the service's on_disconnect raises (after it has been recorded); "bc" = the server's protocol_config
         carries a `before_closed` hook; "gate" = a client connecting with `s`
